@@ -32,7 +32,8 @@ Render(v, d) ==
     [] v.t = "false" -> <<102,97,108,115,101>>
     [] v.t = "int"   -> (IF v.neg THEN <<45>> ELSE <<>>) \o DecStr(v.n)
     [] v.t = "str"   -> Str(v.s)
-    [] v.t = "float" -> v.s
+    [] v.t = "float" -> IF v.s = <<105,110,102>> THEN <<73,110,102,105,110,105,116,121>>
+                        ELSE IF v.s = <<45,105,110,102>> THEN <<45,73,110,102,105,110,105,116,121>> ELSE v.s
     [] v.t = "arr"   ->
          IF v.items = <<>> THEN <<91, 93>>
          ELSE <<91, 10>>
